@@ -119,6 +119,7 @@ type explorer struct {
 	res       *workerResult
 	maxViol   int
 	scIndex   int
+	selfTestN int
 }
 
 func vecKey(sc string, v []int) string { return sc + ":" + fmt.Sprint(v) }
@@ -174,7 +175,7 @@ func (e *explorer) explore(sc *Scenario) *ScenarioStats {
 			mine := n <= 1 || shardOf(choices, d)%n == me
 			if mine {
 				owned++
-				if selfTest < 16 {
+				if selfTest < e.selfTestN {
 					selfTest++
 					y := runOne(sc, e.tier, choices, arity, false)
 					if y.internal != nil || y.obs != x.obs || fmt.Sprint(y.choices) != fmt.Sprint(x.choices) || (y.fail == nil) != (x.fail == nil) {
@@ -216,7 +217,7 @@ func (e *explorer) explore(sc *Scenario) *ScenarioStats {
 							e.res.Violations = append(e.res.Violations, v)
 						}
 					}
-					if owned == 1 || owned == 50 || owned == 5000 {
+					if (owned == 1 || owned == 50 || owned == 5000) && len(e.res.Samples) < 8 {
 						z := runOne(sc, e.tier, choices, arity, true)
 						e.res.Samples = append(e.res.Samples, Sample{sc.Name, append([]int(nil), choices...), z.trace})
 					}
